@@ -104,7 +104,7 @@ func c02Cfg(tier string, seed int64, idx int) (sim.GenCfg, sim.WorldCfg) {
 	case 1:
 		g.Profile = gen.Profile{Txt: 1, DeleteBias: 30, MaxDepth: 1, Unicode: true, MaxText: 14}
 	case 2:
-		g.Profile = gen.Profile{Tree: 1, DeleteBias: 30, MaxDepth: 1}
+		g.Profile = gen.Profile{Tree: 1, DeleteBias: 30, MaxDepth: 1, TreeMixed: idx%2 == 1}
 	case 3:
 		g.Profile = gen.Profile{Obj: 3, Arr: 1, Cnt: 1, DeleteBias: 30, MaxDepth: 3, NewContainers: 30}
 	}
